@@ -36,7 +36,9 @@ def run(chk, tier):
 
 def check_eq_ord(chk, prog, cfg):
     chk.rule("R12.3", "Eq/Ord consistency of the interner key: Type<PortableForm> and every nested model type take "
-             "PartialEq, Eq, PartialOrd, Ord from the built-in derives (no hand-written comparison that could merge distinct values)")
+             "PartialEq, Eq, PartialOrd, Ord from the built-in derives, or from a hand-written impl that computes the same thing: eq = conjunction over "
+             "all members, cmp / partial_cmp = the first non-equal member comparison in one fixed order over all members (decided by interpreting the "
+             "body on every vector of member outcomes) -- no comparison that could merge distinct values")
     names = {}
     for a in prog.adts:
         short = a.split("::")[-1]
@@ -47,6 +49,12 @@ def check_eq_ord(chk, prog, cfg):
         for tr in ("core::cmp::PartialEq", "core::cmp::Eq", "core::cmp::PartialOrd", "core::cmp::Ord"):
             imps = prog.impl_for(tr, lambda t: t["k"] == "adt" and t["d"] == adt)
             ok = len(imps) == 1 and imps[0]["automatically_derived"] and _derive_builtin(imps[0])
+            if not ok and len(imps) == 1 and prog.adts[adt]["kind"] == "struct":
+                # a comparison written by hand is judged by what it computes: run on every vector of member-comparison outcomes
+                sem = _comparison_semantics(prog, adt, imps[0], tr.split("::")[-1])
+                if sem is not None:
+                    chk.expect(sem[0], "R12.3", "%s:%s" % (short, tr.split("::")[-1]), imps[0]["loc"], "hand-written: " + sem[1], cfg)
+                    continue
             chk.expect(ok, "R12.3", "%s:%s" % (short, tr.split("::")[-1]), imps[0]["loc"] if imps else prog.adts[adt]["loc"], kind="UNRECOGNISED" if imps else "VIOLATION", detail=
                        "%d impl(s); derived: %s; by %s" % (len(imps), [i["automatically_derived"] for i in imps],
                                                          [(e or [{}])[0].get("name") for e in [i["expn"] for i in imps]]), config=cfg)
@@ -55,3 +63,101 @@ def check_eq_ord(chk, prog, cfg):
 def _derive_builtin(imp):
     e = imp.get("expn") or []
     return bool(e) and e[0].get("kind") == "Derive" and e[0].get("crate") == "core"
+
+
+def _comparison_semantics(prog, adt, imp, trait):
+    """(ok, detail) for a hand-written PartialEq / PartialOrd / Ord of a struct, None when the body cannot be interpreted (the caller reports it)"""
+    import itertools
+    from ..lib import absint
+    from ..lib.absint import Sym
+    fields = [f["name"] for f in prog.adts[adt]["variants"][0]["fields"]]
+    if trait == "Eq":
+        return (True, "marker trait; PartialEq decides")
+    meth = {"PartialEq": "eq", "PartialOrd": "partial_cmp", "Ord": "cmp"}[trait]
+    items = {it["name"]: it for it in imp["items"]}
+    if meth not in items or len(fields) > 5:
+        return None
+    body = prog.body(items[meth]["path"])
+    if body is None:
+        return None
+    ORD = {"Less": 255, "Equal": 0, "Greater": 1}
+
+    def ordv(n):
+        return ("variant", n, [], ORD[n], (), "core::cmp::Ordering")
+
+    def norm(v):
+        if isinstance(v, tuple) and v[:1] == ("variant",) and v[1] in ORD:
+            return v[1]
+        if isinstance(v, bool):
+            return v
+        if isinstance(v, int):
+            return {255: "Less", -1: "Less", 0: "Equal", 1: "Greater"}.get(v)
+        if isinstance(v, tuple) and v[:1] == ("variant",) and v[1] == "Some" and len(v[2]) == 1:
+            return norm(v[2][0])
+        if isinstance(v, tuple) and v[:1] == ("variant",) and v[1] == "None":
+            return None
+        return "?"
+
+    def run_with(outcome, which):
+        other_impls = {}
+
+        def handler(name, args, t):
+            last = name.split("::")[-1]
+            if last in ("cmp", "partial_cmp", "eq", "ne") and len(args) == 2 and all(isinstance(a, Sym) for a in args):
+                x, y = args[0].name, args[1].name
+                if {x, y} == {"a", "b"} and last in ("cmp", "partial_cmp", "eq"):
+                    # delegation to the sibling impl of the same type (`partial_cmp = Some(self.cmp(other))`)
+                    tr2 = {"cmp": "core::cmp::Ord", "partial_cmp": "core::cmp::PartialOrd", "eq": "core::cmp::PartialEq"}[last]
+                    imps2 = prog.impl_for(tr2, lambda ty: ty["k"] == "adt" and ty["d"] == adt)
+                    if len(imps2) == 1 and last != which:
+                        it2 = {i["name"]: i for i in imps2[0]["items"]}.get(last)
+                        b2 = prog.body(it2["path"]) if it2 else None
+                        if b2 is not None:
+                            r = absint.run(b2, 0, {1: args[0], 2: args[1]}, call=handler, prog=prog, inline=True)
+                            return r
+                    return None
+                if "." in x and "." in y and x.split(".", 1)[1] == y.split(".", 1)[1] and {x.split(".")[0], y.split(".")[0]} == {"a", "b"}:
+                    f = x.split(".", 1)[1]
+                    if f not in outcome:
+                        return None
+                    o = outcome[f]
+                    if x.startswith("b."):
+                        o = {"Less": "Greater", "Greater": "Less"}.get(o, o)
+                    if last == "cmp":
+                        return ordv(o) if o is not None else None
+                    if last == "partial_cmp":
+                        return ("variant", "Some", [ordv(o)], 1, ("0",), "core::option::Option") if o is not None else ("variant", "None", [], 0, (), "core::option::Option")
+                    return (o == "Equal") if last == "eq" else (o != "Equal")
+                return None
+            if last in ("then_with", "then") and "Ordering" in name and len(args) == 2:
+                if norm(args[0]) == "Equal":
+                    return absint.call_closure(prog, args[1], [], handler, 0, True) if last == "then_with" else args[1]
+                return args[0]
+            if last in ("is_eq", "is_ne") and "Ordering" in name:
+                return (norm(args[0]) == "Equal") == (last == "is_eq")
+            return None
+        return absint.run(body, 0, {1: Sym("a"), 2: Sym("b")}, call=handler, prog=prog, inline=True, max_steps=2000)
+
+    domain = ["Less", "Equal", "Greater"] + ([None] if meth == "partial_cmp" else [])
+    results = {}
+    try:
+        for vec in itertools.product(domain, repeat=len(fields)):
+            results[vec] = norm(run_with(dict(zip(fields, vec)), meth))
+    except absint.Unrecognised as e:
+        return None
+    if any(r == "?" for r in results.values()):
+        return None
+    if meth == "eq":
+        bad = [v for v, r in results.items() if r != all(x == "Equal" for x in v)]
+        return (not bad, "eq over %s on %d outcome vectors%s" % (fields, len(results), "; wrong on %s" % (bad[0],) if bad else ""))
+    for perm in itertools.permutations(range(len(fields))):
+        def lex(v):
+            for k in perm:
+                if v[k] != "Equal":
+                    return v[k]
+            return "Equal"
+        if all(results[v] == lex(v) for v in results):
+            return (True, "%s = first non-equal of %s on all %d outcome vectors" % (meth, [fields[k] for k in perm], len(results)))
+    allq = tuple("Equal" for _ in fields)
+    merged = [v for v, r in results.items() if r == "Equal" and v != allq]
+    return (False, "%s is not a lexicographic comparison over all of %s%s" % (meth, fields, "; e.g. members compare %s but the result is Equal" % (merged[0],) if merged else ""))
